@@ -534,7 +534,8 @@ package schema
 //@   ensures[C11] undeclared-relation-is-rejected-at-its-token: !hasrel(p.namespaces, namespace, relationType) ==> len(p.errors) == old(len(p.errors)) + 1 && lasterrat(p, item)
 //@   ensures[C11] accepted-means-engine-lookup-succeeds: len(p.errors) == old(len(p.errors)) ==> ok && r != nil && r.Name == relationType && typesdeclare(p.namespaces, r.Types, relation)
 //@   loop 1 invariant p != nil && len(p.errors) >= old(len(p.errors))
-//@   loop 1 invariant len(p.errors) == old(len(p.errors)) ==> forall k in 0..$n :: hasrel(p.namespaces, r.Types[k].Namespace, relation)
+//@   loop 1 invariant[C11] plain-types-declare-it: len(p.errors) == old(len(p.errors)) ==> forall k in 0..$n :: r.Types[k].Relation == "" ==> hasrel(p.namespaces, r.Types[k].Namespace, relation)
+//@   loop 1 invariant[C11] subject-set-types-declare-it: len(p.errors) == old(len(p.errors)) ==> forall k in 0..$n :: r.Types[k].Relation != "" ==> hasrel(p.namespaces, r.Types[k].Namespace, relation)
 
 //@ func checkAllRelationsTypesHaveRelation$1
 //@   props C11 C13
